@@ -1,4 +1,5 @@
 import BigDec.Driver.C01
+import BigDec.Driver.C06
 /-! Line-protocol driver: one case per input line
       `<prop> \t <op> \t <arg>… \t => \t <implementation output>`
     one verdict per output line (see `Proto.Verdict.render`). Imports model + spec only. -/
@@ -7,6 +8,7 @@ open BigDec BigDec.Proto
 def dispatch (prop op : String) (args : List String) (impl : String) : Verdict :=
   match prop with
   | "C01" => Driver.C01.handle op args impl
+  | "C06" => Driver.C06.handle op args impl
   | _ => badInput ("unknown property " ++ prop)
 
 def splitArrow (fs : List String) : List String × String :=
